@@ -1,7 +1,10 @@
 package ledgerstore
 
 import (
+	"github.com/ontio/ontology-crypto/keypair"
+	s "github.com/ontio/ontology-crypto/signature"
 	"github.com/ontio/ontology/common"
+	"github.com/ontio/ontology/common/config"
 	"github.com/ontio/ontology/core/types"
 )
 
@@ -105,4 +108,91 @@ func Harness_C40_queries_agree() {
 	// restart
 	assert(node.open() == nil && node.ls.init() == nil, "c40-reopen")
 	c40Check(node.ls, cs, "reopened")
+}
+
+// Harness_C40_height_keys: records indexed by height do not collide for ANY two distinct 32-bit heights
+// (the chains above are short; here the heights are solver variables): block hash by height, bloom data by
+// height, cross states and state roots by height, event lists by height.
+func Harness_C40_height_keys() {
+	c01DBs = nil
+	c01 = &c01Model{left: 100}
+	node := c01NewNode(false, 0)
+	assert(node.open() == nil, "c40k-open")
+	h1, h2 := nondetU32("h1"), nondetU32("h2")
+	assume(h1 != h2)
+	var a, b common.Uint256
+	copy(a[:], nondetBytes("hash1", 32))
+	copy(b[:], nondetBytes("hash2", 32))
+	bs, ss, es := node.ls.blockStore, node.ls.stateStore, node.ls.eventStore
+	bs.NewBatch()
+	bs.SaveBlockHash(h1, a)
+	bs.SaveBlockHash(h2, b)
+	assert(bs.CommitTo() == nil, "c40k-commit")
+	g1, e1 := bs.GetBlockHash(h1)
+	g2, e2 := bs.GetBlockHash(h2)
+	assert(e1 == nil && e2 == nil && g1 == a && g2 == b, "hash-by-height-distinct-heights-do-not-collide")
+	ss.NewBatch()
+	assert(ss.SaveCrossStates(h1, []common.Uint256{a}) == nil && ss.SaveCrossStates(h2, []common.Uint256{b, b}) == nil, "c40k-save-cross")
+	assert(ss.CommitTo() == nil, "c40k-commit-state")
+	c1, ce1 := ss.GetCrossStates(h1)
+	c2, ce2 := ss.GetCrossStates(h2)
+	assert(ce1 == nil && ce2 == nil && len(c1) == 1 && len(c2) == 2 && (len(c1) != 1 || c1[0] == a), "cross-states-by-height-do-not-collide")
+	es.NewBatch()
+	es.SaveEventNotifyByBlock(h1, []common.Uint256{a})
+	es.SaveEventNotifyByBlock(h2, []common.Uint256{b, b})
+	assert(es.CommitTo() == nil, "c40k-commit-event")
+	v1, _ := node.ev.get(genEventNotifyByBlockKey(h1))
+	v2, _ := node.ev.get(genEventNotifyByBlockKey(h2))
+	assert(len(v1) == 4+32 && len(v2) == 4+64, "event-lists-by-height-do-not-collide")
+}
+
+// Harness_C40_header_then_block: header sync runs ahead of block sync - a valid header for height h+1 is
+// indexed through AddHeader, then a (different) valid block is committed at that height through AddBlock;
+// every query for h+1 must answer with the committed block.
+func Harness_C40_header_then_block() {
+	config.DefConfig.Genesis.ConsensusType = "solo"
+	c01DBs = nil
+	c01 = &c01Model{left: 100}
+	key := c39Key("bookkeeper")
+	next, err := types.AddressFromBookkeepers([]keypair.PublicKey{key})
+	assume(err == nil)
+	node := c01NewNode(false, 0)
+	assert(node.open() == nil, "c40h-open")
+	var prev common.Uint256
+	var cs []c40Committed
+	var tip *types.Header
+	for i := uint32(0); i <= 1; i++ {
+		b := c01MkBlock(node.ls, i, common.Uint256{}, prev)
+		b.Header.NextBookkeeper = next
+		prev = b.Hash()
+		tip = b.Header
+		assert(node.ls.saveBlock(b, nil, common.Uint256{}) == nil, "c40h-history")
+		cs = append(cs, c40Committed{b, prev, nil})
+	}
+	mk := func(ts uint32) *types.Block {
+		hdr := &types.Header{Height: 2, PrevBlockHash: prev, Timestamp: ts, NextBookkeeper: next,
+			Bookkeepers: []keypair.PublicKey{key}}
+		hdr.BlockRoot = node.ls.GetBlockRootWithNewTxRoots(2, []common.Uint256{hdr.TransactionsRoot})
+		blk := &types.Block{Header: hdr}
+		hash := blk.Hash()
+		blob := nondetBytes("sig", 4)
+		so, e := s.Deserialize(blob)
+		assume(e == nil)
+		assume(s.Verify(key, hash[:], so))
+		hdr.SigData = [][]byte{blob}
+		return blk
+	}
+	t1 := nondetU32("header.timestamp")
+	t2 := nondetU32("block.timestamp")
+	assume(t1 > tip.Timestamp && t2 > tip.Timestamp)
+	seen := mk(t1)
+	if nondetBool("header-first") {
+		assert(node.ls.AddHeader(seen.Header) == nil, "c40h-header-accepted")
+	}
+	blk := mk(t2)
+	assert(node.ls.AddBlock(blk, nil, common.Uint256{}) == nil, "c40h-block-accepted")
+	cs = append(cs, c40Committed{blk, blk.Hash(), nil})
+	c40Check(node.ls, cs, "synced")
+	assert(node.open() == nil && node.ls.init() == nil, "c40h-reopen")
+	c40Check(node.ls, cs, "synced-reopened")
 }
